@@ -75,7 +75,8 @@ HasSpl(op) == CASE op.k = "Spl" -> TRUE
                 [] OTHER -> HasSpl(op.o)
 
 \* operands
-GridsOp == IF Thorough THEN {E4, N5, Off3, Z4} ELSE {E4, Off3, Z4}
+\* N4: as many points as E4 and Z4 but other spacings (a per-process cache keyed by size or by storage address shows)
+GridsOp == IF Thorough THEN {E4, N5, Off3, Z4, N4} ELSE {E4, Off3, Z4, N4}
 OrdersOp == 0..3
 OneVar(S, o) == SplOn(S, o, IF SupNInt(S) = 0 THEN <<>> ELSE Generic(SupNInt(S), o, 0))
 TwoVar(S, o) == {OneVar(S, o)} \cup (IF SupNInt(S) = 0 THEN {} ELSE {SplOn(S, o, Generic(SupNInt(S), o, 1))})
@@ -136,6 +137,10 @@ BFCases(e1) ==
   {[op |-> "OpBF", tag |-> "bf", e1 |-> e1, e2 |-> e2, a |-> OneVar(Sa, oa), b |-> OneVar(Sb, ob),
     fs |-> IF HasSpl(e1) \/ HasSpl(e2) THEN <<OneVar(Sup(E4, 1, 4), 1)>> ELSE <<>>, fshare |-> 1] :
      e2 \in BFOps, Sa \in SupportsOn(E4), Sb \in SupportsOn(E4), oa \in BFOrders, ob \in BFOrders}
+  \* the same forms on a grid with as many points as E4 but other spacings
+  \cup {[op |-> "OpBF", tag |-> "bf", e1 |-> e1, e2 |-> e2, a |-> OneVar(Sa, oa), b |-> OneVar(Sb, ob),
+         fs |-> IF HasSpl(e1) \/ HasSpl(e2) THEN <<OneVar(Sup(N4, 1, 4), 1)>> ELSE <<>>, fshare |-> 1] :
+          e2 \in {Id, Dn(1)}, Sa \in {SupWhole(N4), Sup(N4, 1, 4)}, Sb \in {SupWhole(N4), Sup(N4, 0, 3)}, oa \in {1, 2}, ob \in {1, 2}}
   \cup (IF e1 \in {Id, SplLeaf}
         THEN {[op |-> "OpBF", tag |-> "foreign", e1 |-> e1, e2 |-> e2, a |-> OneVar(Sa, 1), b |-> OneVar(Sb, 1),
                fs |-> <<f>>, fshare |-> 0] :
